@@ -26,7 +26,9 @@ type ClauseParam struct {
 	Kind  paramKind
 	Index int
 	Name  string
-	Pos   token.Pos // declaring position for locals
+	Pos   token.Pos // declaring position for locals (phase-1 file set)
+	File  string
+	Off   int
 }
 
 type Clause struct {
